@@ -221,12 +221,53 @@ struct Requests(Vec<Entity>);
 
 /// Real handshake between a server built from `s` and a client built from `c`.
 fn handshake(s: &[usize], c: &[usize]) -> Result<(), Bad> {
-    handshake_with(s, c, false)?;
+    handshake_with(s, c, false, false)?;
     // the transport reports `Connecting` for a few frames before `Connected`
-    handshake_with(s, c, true)
+    handshake_with(s, c, true, false)?;
+    // the transport loses everything that travels on a channel registered as unreliable
+    handshake_with(s, c, false, true)?;
+    handshake_reconnect(s, c)
 }
 
-fn handshake_with(s: &[usize], c: &[usize], slow: bool) -> Result<(), Bad> {
+/// Two sessions of the same client app in a row: the second handshake must decide like the first.
+fn handshake_reconnect(s: &[usize], c: &[usize]) -> Result<(), Bad> {
+    let mut server = build(s);
+    let mut client = build(c);
+    let same = s == c;
+    server.world_mut().resource_mut::<RepliconServer>().set_running(true);
+    let mut verdicts = Vec::new();
+    for _session in 0..2 {
+        let conn = server.world_mut().spawn(ConnectedClient { max_size: 1200 }).id();
+        client.world_mut().resource_mut::<RepliconClient>().set_status(RepliconClientStatus::Connected);
+        for _ in 0..3 {
+            client.update();
+            let sent: Vec<_> = client.world_mut().resource_mut::<RepliconClient>().drain_sent().collect();
+            for (ch, m) in sent {
+                if ch == 1 {
+                    server.world_mut().resource_mut::<RepliconServer>().insert_received(conn, ch, m);
+                }
+            }
+            server.update();
+            let _ = server.world_mut().resource_mut::<RepliconServer>().drain_sent().count();
+        }
+        verdicts.push(server.world().entity(conn).contains::<AuthorizedClient>());
+        server.world_mut().entity_mut(conn).despawn();
+        client.world_mut().resource_mut::<RepliconClient>().set_status(RepliconClientStatus::Disconnected);
+        client.update();
+        server.update();
+    }
+    if verdicts != vec![same, same] {
+        return Err(Bad {
+            oracle: "authorization-after-reconnect",
+            a: s.to_vec(),
+            b: c.to_vec(),
+            detail: format!("sequences {}: the client was authorized = {:?} in two consecutive sessions", if same { "are equal" } else { "differ" }, verdicts),
+        });
+    }
+    Ok(())
+}
+
+fn handshake_with(s: &[usize], c: &[usize], slow: bool, lossy: bool) -> Result<(), Bad> {
     let mut server = build(s);
     let mut client = build(c);
     server.init_resource::<Requests>();
@@ -258,6 +299,10 @@ fn handshake_with(s: &[usize], c: &[usize], slow: bool) -> Result<(), Bad> {
             app.update();
             let sent: Vec<_> = app.world_mut().resource_mut::<RepliconClient>().drain_sent().collect();
             for (ch, m) in sent {
+                let kind = app.world().resource::<RepliconChannels>().client_channels()[ch];
+                if lossy && kind == Channel::Unreliable {
+                    continue;
+                }
                 // Only the handshake channel is common to both protocols.
                 if ch == 1 {
                     server.world_mut().resource_mut::<RepliconServer>().insert_received(id, ch, m);
@@ -270,6 +315,10 @@ fn handshake_with(s: &[usize], c: &[usize], slow: bool) -> Result<(), Bad> {
         server.update();
         let sent: Vec<_> = server.world_mut().resource_mut::<RepliconServer>().drain_sent().collect();
         for (to, ch, m) in sent {
+            let kind = server.world().resource::<RepliconChannels>().server_channels()[ch];
+            if lossy && kind == Channel::Unreliable {
+                continue;
+            }
             if to == conn {
                 to_client.push((ch, m));
             } else {
@@ -282,7 +331,13 @@ fn handshake_with(s: &[usize], c: &[usize], slow: bool) -> Result<(), Bad> {
         oracle,
         a: s.to_vec(),
         b: c.to_vec(),
-        detail: if slow { format!("{detail} (client status went through Connecting for four frames)") } else { detail },
+        detail: if slow {
+            format!("{detail} (client status went through Connecting for four frames)")
+        } else if lossy {
+            format!("{detail} (messages on channels registered as unreliable were lost)")
+        } else {
+            detail
+        },
     };
     if authorized != same {
         return Err(bad(
@@ -291,7 +346,8 @@ fn handshake_with(s: &[usize], c: &[usize], slow: bool) -> Result<(), Bad> {
         ));
     }
     if !same {
-        if !to_client.iter().any(|(ch, _)| *ch == 2) {
+        // (the notification itself travels on a channel without delivery guarantee)
+        if !lossy && !to_client.iter().any(|(ch, _)| *ch == 2) {
             return Err(bad("no-mismatch-notification", "no ProtocolMismatch message was sent to the client".into()));
         }
         if !server.world().resource::<Requests>().0.contains(&conn) {
@@ -341,6 +397,19 @@ pub fn run(tier: Tier, _budget: f64, out: &mut Outcome) -> Result<(), MachineryE
     for ((s, h), h2) in hashes.iter().zip(&other) {
         if h != h2 {
             bad.push(Bad { oracle: "hash-depends-on-unrelated-state", a: s.clone(), b: s.clone(), detail: format!("{h} vs {h2} for the same registrations in an App that registered unrelated components first") });
+        }
+    }
+    // a registration after the hash was finalized must not go through silently
+    for item in 0..ITEMS {
+        if !well_formed(&[item]) {
+            continue;
+        }
+        let mut app = build(&[]);
+        let before = format!("{:?}", app.world().resource::<ProtocolHash>());
+        let accepted = crate::sim::guarded(|| apply(&mut app, item)).is_ok();
+        let after = format!("{:?}", app.world().resource::<ProtocolHash>());
+        if accepted && before == after {
+            bad.push(Bad { oracle: "late-registration-not-hashed", a: vec![], b: vec![item], detail: format!("`{}` was accepted after the protocol hash had been finalized, and the hash did not change: a peer without it has the same hash", NAMES[item]) });
         }
     }
     // ... and in a second process
